@@ -56,13 +56,14 @@ def ctx() -> "Ctx":
 
 
 class Dec:
-    __slots__ = ("cur", "alts", "kind", "label")
+    __slots__ = ("cur", "alts", "kind", "label", "sig")
 
-    def __init__(self, cur: int, alts: List[int], kind: str, label: str):
+    def __init__(self, cur: int, alts: List[int], kind: str, label: str, sig: Any = None):
         self.cur = cur
         self.alts = alts
         self.kind = kind
         self.label = label
+        self.sig = sig  # what was decided (condition text / number of alternatives): re-executions must meet the same decision
 
 
 class Stats:
@@ -174,6 +175,10 @@ class Ctx:
         if self.pos < len(self.prefix):
             d = self.prefix[self.pos]
             self.pos += 1
+            if d.sig is not None and d.sig != cond.sexpr():
+                raise Inconclusive("the harness is not deterministic: decision %d was on %s, now on %s" % (self.pos - 1, d.sig, cond.sexpr()))
+            if d.kind == "fixed" and d.sig is None:
+                d.sig = cond.sexpr()
             take = d.cur == 0
             self.solver.add(cond if take else z3.Not(cond))
             if label:
@@ -186,11 +191,11 @@ class Ctx:
         if t == z3.sat:
             f = self._check(z3.Not(cond))
             if f == z3.sat:
-                d = Dec(0, [1], "fork", label)
+                d = Dec(0, [1], "fork", label, cond.sexpr())
             else:
-                d = Dec(0, [], "fork", label)
+                d = Dec(0, [], "fork", label, cond.sexpr())
         else:
-            d = Dec(1, [], "fork", label)
+            d = Dec(1, [], "fork", label, cond.sexpr())
         self.prefix.append(d)
         self.pos += 1
         take = d.cur == 0
@@ -232,10 +237,15 @@ class Ctx:
         if self.pos < len(self.prefix):
             d = self.prefix[self.pos]
             self.pos += 1
+            sig = "choose:%s:%d" % (label, n)
+            if d.sig is not None and d.sig != sig:
+                raise Inconclusive("the harness is not deterministic: decision %d was %s, now %s" % (self.pos - 1, d.sig, sig))
+            if d.kind == "fixed" and d.sig is None:
+                d.sig = sig
         else:
             if n > 1 and self.split_depth is not None and len(self.prefix) >= self.split_depth:
                 raise SplitPoint()
-            d = Dec(0, list(range(1, n)), "choose", label)
+            d = Dec(0, list(range(1, n)), "choose", label, "choose:%s:%d" % (label, n))
             self.prefix.append(d)
             self.pos += 1
         self.solver.add(var == d.cur)
